@@ -334,8 +334,9 @@ func (k *walker) keyStorable(s atree.Storable, self atree.SlabID, root int) {
 func (w *World) DoWalk() *Walk {
 	res := &Walk{Inlined: map[atree.ValueID]atree.Slab{}, ByID: map[atree.SlabID]*SlabRec{}, RefCount: map[atree.SlabID]int{}, rename: map[atree.SlabID]int{}}
 	k := &walker{w: w, res: res}
+	_, canon := w.canonOrder()
 	for _, c := range w.LiveRoots() {
-		fmt.Fprintf(&k.sb, "root c%d: ", c.Serial)
+		fmt.Fprintf(&k.sb, "root c%d: ", canon[c])
 		// The handle's own root slab object is what the container operates on.
 		var rootSlab atree.Slab
 		if c.IsMap && c.Map != nil {
